@@ -169,8 +169,7 @@ class World:
                     raise PyRaise(VExc(pycls, []))
             result = NONE
             if c.returns is not None:
-                result = fresh(c.returns, "ret_" + c.qualname.split(".")[-1])
-                self.speclib.range_facts(ex, result)
+                result = self.speclib.fresh_typed(ex, c.returns, "ret_" + c.qualname.split(".")[-1])
             fr.vars["result"] = result
             for p in c.ensures:
                 ex.assume(ex.truth(ex.eval_text(p)))
